@@ -475,6 +475,13 @@ def cc_apply(cc, m):
         return catch(p.pop, m[1], None)
     if t == "prop_setdefault":
         return catch(p.setdefault, m[1], decode_value(m[2]))
+    if t == "prop_ior":       # cc.properties |= {...}
+        import operator
+        r = catch(operator.ior, p, {k: decode_value(v) for k, v in m[1]})
+        return r if isinstance(r, Err) else None
+    if t == "prop_popitem":
+        r = catch(p.popitem)
+        return r if isinstance(r, Err) else None
     raise ValueError(m)
 
 
@@ -603,6 +610,24 @@ def apply_op(W, op, rec=None):
         W.w[op[1] % 2] = r
         W.sticky[op[1] % 2] = catch(lambda: r.charset)
         return None
+    if t == "selfassign":     # ["selfassign", w, attr, shape]: req.attr = <what req.attr just gave, in some shape>
+        attr, shape = op[2], op[3]
+        image = selfassign_image(req, attr)      # (first: reading the body may replace the input object)
+        cur = catch(getattr, req, attr)
+        if isinstance(cur, Err):
+            return None
+        if rec is not None and hasattr(rec, "selfassign"):
+            rec.selfassign = (attr, image)
+        val = cur
+        if shape == "items":
+            val = cur.items()
+        elif shape == "gen":
+            val = ((k, v) for k, v in cur.items())
+        elif shape == "dict":
+            val = dict(cur)
+        elif shape == "list":
+            val = list(cur.items())
+        return canon(catch(setattr, req, attr, val))
     if t == "fork":           # ["fork", w, how]: a further live wrapper over a COPY of the environ; the history goes on there
         how = op[2]
         r2 = catch({"copy": lambda: req.copy(), "copy_get": lambda: req.copy_get(), "dict": lambda: type(req)(dict(env)),
@@ -650,11 +675,33 @@ def expected_charset(content_type):
     return "UTF-8" if _is_utf8(cs) else cs
 
 
+SELF_ASSIGNABLE = {"headers": ["view", "items", "gen", "dict", "list"], "cookies": ["view", "items", "gen", "dict"],
+                   "cache_control": ["view"], "urlvars": ["view", "dict"], "urlargs": ["view"],
+                   # (not body_file: its setter is documented to reset CONTENT_LENGTH, so a body cut short by CONTENT_LENGTH grows)
+                   "body_file_raw": ["view"], "body": ["view"], "query_string": ["view"], "content_type": ["view"],
+                   # (not the typed attributes accept*, if_match, if_none_match, if_range, range, dates, authorization: whether
+                   #  serialize(parse(text)) reads back the same for ANY header text is the round trip of C03 / C11 / C12)
+                   "host": ["view"], "script_name": ["view"],
+                   "path_info": ["view"], "method": ["view"], "content_length": ["view"], "user_agent": ["view"],
+                   "is_body_readable": ["view"], "is_body_seekable": ["view"], "charset": ["view"], "text": ["view"]}
+
+
+def selfassign_image(req, attr):
+    """What must survive req.attr = req.attr: the attribute as read back (containers by content, the body by its bytes)."""
+    if attr in ("headers", "cookies", "urlvars"):
+        return catch(lambda: sorted([canon(k), canon(v)] for k, v in getattr(req, attr).items()))
+    if attr in ("body_file", "body_file_raw", "body", "text"):
+        return catch(lambda: req.body)
+    if attr == "cache_control":
+        return catch(lambda: sorted([k, canon(v)] for k, v in req.cache_control.properties.items()))
+    return read(req, attr)
+
+
 class LastView:
     """Remembers the view an operation went through (for the write-lands checks)."""
 
     def __init__(self):
-        self.get = self.cookie = self.cc = self.items = None
+        self.get = self.cookie = self.cc = self.items = self.selfassign = None
 
     def before_get(self, d):
         self.items = [[canon(a), canon(b)] for a, b in d.items()]
@@ -715,7 +762,7 @@ def compare_all(W, step, op, getters, rng=None):
                     return ("POST:cached-parse-not-returned", "step %d %r: POST differs from the parse cached for this body object"
                             % (step, op))
                 continue
-            pre = dict(env) if g.startswith(("cache_control", "GET", "params")) else None
+            pre = dict(env)
             a = read(A, g)
             f = read(F, g)
             if a != f and g in nonstr_dependents(env):
@@ -775,6 +822,15 @@ def classify(g, op, a, f, env=None, live_env=None):
         return "stale:" + base
     if base == "cookies":
         return "stale:cookies"
+    if base in ("body", "text", "json", "json_body", "body_file_seekable", "body_file_raw", "body_file", "copy", "decode",
+                "as_bytes", "as_text", "POST", "params"):
+        bf = (env or {}).get("webob._body_file")
+        try:
+            if bf is not None and bf[1] is env.get("wsgi.input") and str(bf[0].raw.maxlen) != str(env.get("CONTENT_LENGTH")):
+                # the memoised LimitedLengthFile was made for an earlier CONTENT_LENGTH (the body is C10's subject)
+                return "body:memoised-body_file-ignores-content-length-change"
+        except Exception:  # noqa
+            pass
     if base in ("body", "text", "json", "json_body", "body_file_seekable", "body_file_raw", "body_file"):
         return "stale:body"
     return "incoherent:" + base
@@ -874,10 +930,10 @@ def headers_laws(req, env, step, op, who):
 def allowed_keys(op):
     """Non-cache environ keys an operation may change (None = not a checked write)."""
     t = op[0]
-    if t == "setattr" or t == "delattr":
+    if t == "setattr" or t == "delattr" or t == "selfassign":
         n = op[2]
-        if n in ("body", "text", "json", "json_body", "body_file"):
-            return set(BODY_KEYS)
+        if n in ("body", "text", "json", "json_body", "body_file") or (t == "selfassign" and n == "body_file_raw"):
+            return set(BODY_KEYS)      # (a self-assignment first reads the body, which may make it seekable)
         if n == "headers":
             return None
         if n in ATTR_KEY:
@@ -917,6 +973,14 @@ def check_view_write(W, step, op, ret, last):
     """A successful write through a GET / cookies / cache_control view is in the environ: a brand-new Request sees it."""
     env = W.env
     t = op[0]
+    if t == "selfassign" and last is not None and last.selfassign is not None and not isinstance(ret, Err):
+        attr, was = last.selfassign
+        req = W.w[op[1] % 2]
+        now = selfassign_image(req, attr)
+        told = selfassign_image(fresh_request(env, type(req)), attr) if attr != "charset" else now
+        if not isinstance(was, Err) and (now != was or told != was):
+            return ("self-assignment:%s-not-kept" % attr, "step %d %r: request.%s was %r; after assigning it to itself the wrapper "
+                    "reads %r and a brand-new Request %r" % (step, op, attr, was, now, told))
     if isinstance(ret, Err) and t == "GET" and last is not None and last.get is not None and last.items is not None:
         # a refused write must not stay in the view either
         now = [[canon(a), canon(b)] for a, b in last.get.items()]
@@ -956,7 +1020,8 @@ def check_view_write(W, step, op, ret, last):
             if got != catch(str, c):
                 from webob.cachecontrol import UpdateDict
                 live = isinstance(c.properties, UpdateDict) and c.properties.updated is not None
-                return ("write-lands:cache_control-not-written" if live else "cache_control:assigned-object-not-live",
+                return (("cache_control:ior-on-properties-not-written-back" if op[3][0] == "prop_ior"
+                         else "write-lands:cache_control-not-written") if live else "cache_control:assigned-object-not-live",
                         "step %d %r: the CacheControl view holds %r but a brand-new Request reads %r from "
                         "HTTP_CACHE_CONTROL=%r" % (step, op, sorted(after.items(), key=str), got, env.get("HTTP_CACHE_CONTROL")))
     return None
@@ -1002,10 +1067,11 @@ def check_write(W, step, op, before, ret):
         if type(v) is object or n in VERBATIM and not isinstance(v, str):
             typed_ok = False
         if v is None and n not in ("scheme", "http_version", "server_name", "server_port", "path_info", "upath_info",
-                                   "if_match", "if_none_match", "cache_control", "body_file_raw", "is_body_readable",
+                                   "cache_control", "body_file_raw", "is_body_readable",
                                    "cookies", "host", "urlvars", "urlargs"):
             if key in env:
-                return ("write-lands:none-not-removed", "step %d %r: %s still holds %r" % (step, op, key, env[key]))
+                return ("write-lands:none-not-removed" + (":etag-attribute" if n in ("if_match", "if_none_match") else ""),
+                        "step %d %r: %s still holds %r" % (step, op, key, env[key]))
         elif isinstance(v, str) and n in VERBATIM:
             if env.get(key) != v:
                 return ("write-lands:not-stored", "step %d %r: environ[%r] = %r" % (step, op, key, env.get(key)))
@@ -1293,14 +1359,15 @@ def rand_cc(rng):
         return ["set", a, rng.choice(CC_ATTRS[a])]
     if r < 0.85:
         return ["del", rng.choice(sorted(CC_ATTRS))]
-    t = rng.choice(["prop_set", "prop_del", "prop_clear", "prop_update", "prop_pop", "prop_setdefault"])
+    t = rng.choice(["prop_set", "prop_del", "prop_clear", "prop_update", "prop_pop", "prop_setdefault", "prop_ior", "prop_ior",
+                    "prop_popitem"])
     k = rng.choice(["max-age", "no-cache", "x-ext", "no-store"])
     v = rng.choice([None, 5, 9, "tok"])
     if t in ("prop_set", "prop_setdefault"):
         return [t, k, v]
     if t in ("prop_del", "prop_pop"):
         return [t, k]
-    if t == "prop_update":
+    if t in ("prop_update", "prop_ior"):
         return [t, [[k, v]]]
     return [t]
 
@@ -1317,13 +1384,16 @@ def rand_header_value(rng, name):
 def rand_op(rng, focus=None):
     """One operation; `focus` biases towards a family (None = everything)."""
     fam = focus or rng.choice(["attr", "attr", "attr", "del", "env", "env", "env", "hdr", "hdr", "GET", "GET", "cookies",
-                               "cookies", "cc", "cc", "hold", "body", "call", "read", "misc", "knob", "shape", "shape", "fork"])
+                               "cookies", "cc", "cc", "hold", "body", "call", "read", "misc", "knob", "shape", "shape", "fork", "selfassign"])
     if fam == "knob":
         return rand_knob_op(rng)
     if fam == "shape":
         return rand_shape_op(rng)
     if fam == "outside":
         return rand_outside_op(rng) if rng.random() < 0.6 else rand_op(rng, None)
+    if fam == "selfassign":
+        a = rng.choice(sorted(SELF_ASSIGNABLE))
+        return ["selfassign", rng.randrange(2), a, rng.choice(SELF_ASSIGNABLE[a])]
     if fam == "fork":
         if rng.random() < 0.55:
             return ["fork", rng.randrange(2), rng.choice(["copy", "copy_get", "dict", "envcopy"])]
@@ -1557,7 +1627,7 @@ def rand_history(rng, maxlen, focus=None):
     if focus == "copies":
         foci = ["fork", "fork", "GET", "cookies", "cc", "cc", "hdr", "attr", "env", "hold", "read", "body"]
     if focus == "config":
-        foci = ["knob", "knob", "body", "attr", "read", "GET", "shape", "call"]
+        foci = ["knob", "knob", "body", "attr", "read", "GET", "shape", "call", "selfassign"]
     ops = []
     for _ in range(n):
         f = rng.choice(foci) if foci else focus
@@ -2096,7 +2166,29 @@ KNOWN_WITNESSES = [
     # request.py:1122 before fixes/C01-4: the view fetched over a copied environ is the original's CacheControl object
     ({"kind": "blank", "path": "/?a=1", "set": [["HTTP_CACHE_CONTROL", "no-cache"]]},
      [["read", 0, "cache_control"], ["fork", 0, "copy"], ["cc", 0, "fresh", ["set", "max_age", 10]]]),
+    # request.py:333 before fixes/C01-5: the headers are cleared before the (live) value is read
+    ({"kind": "blank", "path": "/", "set": [["HTTP_X_A", "1"]]}, [["selfassign", 0, "headers", "view"]]),
+    # etag.py:25 before fixes/C01-6: None is stored under HTTP_IF_MATCH
+    ({"kind": "blank", "path": "/", "set": [["HTTP_IF_MATCH", "\"a\""]]}, [["setattr", 0, "if_match", None]]),
+    # cachecontrol.py UpdateDict before fixes/C01-7: |= does not call back
+    ({"kind": "blank", "path": "/", "set": [["HTTP_CACHE_CONTROL", "max-age=5"]]},
+     [["cc", 0, "fresh", ["prop_ior", [["no-store", None]]]]]),
 ]
+
+
+def selfassign_matrix():
+    """req.attr = req.attr for every attribute with a setter, in every shape the value can be handed back."""
+    spec = {"kind": "blank", "path": "/p/q?a=1", "set": [["HTTP_X_A", "1"], ["HTTP_COOKIE", "a=1; b=2"], ["HTTP_CACHE_CONTROL", "max-age=5"],
+                                                          ["HTTP_IF_MATCH", "\"a\""], ["HTTP_ACCEPT", "text/html"], ["HTTP_RANGE", "bytes=0-4"],
+                                                          ["CONTENT_TYPE", "text/plain; charset=utf-8"], ["REQUEST_METHOD", "POST"]],
+            "body": b"hello".hex()}
+    out = []
+    for seek in (True, False):
+        sp = dict(spec, seekable=seek)
+        for a, shapes in sorted(SELF_ASSIGNABLE.items()):
+            for sh in shapes:
+                out.append((sp, [["selfassign", 0, a, sh], ["selfassign", 1, a, sh]]))
+    return out
 
 
 def headers_matrix(extra_keys=()):
@@ -2499,6 +2591,8 @@ def stage_oracle(ctx):
         spec, ops = rand_history(rng, ctx.scale(10, 20), ["config", "shape"][i % 2])
         jobs.append((spec, ops, [None, rng.randrange(10 ** 6), "final"][i % 3], None))
     oracle_many(ctx, "config-and-shapes", jobs)
+
+    oracle_many(ctx, "self-assignment", [(spec, ops, m_, FOCUS_GETTERS) for spec, ops in selfassign_matrix() for m_ in (None, "final")])
 
     # the headers mapping over environs with the meta-variables and their HTTP_ look-alikes
     oracle_many(ctx, "headers-enumeration", [(spec, ops, "final", FOCUS_GETTERS) for spec, ops in headers_matrix()])
